@@ -28,6 +28,9 @@ impl Transport {
 			};
 			(loop_start, loop_end)
 		});
+		// an empty or inverted region cannot be looped over: wrapping by its
+		// (zero or negative) length would never terminate or underflow
+		let loop_region = loop_region.filter(|(loop_start, loop_end)| loop_end > loop_start);
 		Self {
 			position: if reverse {
 				num_frames - 1 - start_position
@@ -53,6 +56,9 @@ impl Transport {
 			};
 			(loop_start, loop_end)
 		});
+		self.loop_region = self
+			.loop_region
+			.filter(|(loop_start, loop_end)| loop_end > loop_start);
 	}
 
 	pub fn increment_position(&mut self, num_frames: usize) {
